@@ -55,7 +55,7 @@ def gen(rs, tier, index):
         seqk = [k for k in seqk if k.name != 'SynchronousMemory']
     n = rng.choice([3, 5, 8, 14, 24]) if tier == 'quick' else rng.choice([5, 12, 24, 40])
     d = netlist.gen_design(rng, n, comb, hier_depth=rng.choice([0, 0, 1, 2, 3]), feedback=rng.choice([0, 0.2]),
-                           seq_kinds=seqk, seq_frac=rng.choice([0, 0.2, 0.4]), maxw=70, big=rng.random() < 0.03)
+                           seq_kinds=seqk, seq_frac=rng.choice([0, 0.2, 0.4]), maxw=70, big=rng.random() < 0.008)
     apply_exclusions(d, kf, rng)
     if rng.random() < 0.12:
         netlist.underscore_names(d, rs.get('naming'))
